@@ -200,6 +200,16 @@ class Tree:
                 elif k == "td":
                     ac.add_teardown_callback(lambda l=st[1]: env.log("td", l))
                     env.log("td-reg", st[1])
+                elif k == "tdn":
+                    # a teardown callback that registers one more callback while the teardown is running
+                    def nesting(l: str = st[1]) -> None:
+                        env.log("td", l)
+                        ac.add_teardown_callback(lambda: env.log("td", l + "+nested"))
+                        env.log("td-reg-late", l + "+nested")
+
+                    ctx_now = ac.current_context()
+                    ctx_now.add_teardown_callback(nesting)
+                    env.log("td-reg", st[1])
                 elif k == "par":
                     # several requests pending at once in one component (tasks started from its method)
                     async with anyio.create_task_group() as tg:
